@@ -1,17 +1,17 @@
-\* generation, one caller: every step of Mount/Check/Unmount with every environment choice
+\* negative controls: one caller, three calls; each guard constant switched off must break its formula
 CONSTANTS
     MPs = {"m1", "m2"}
     Blobs = {"b1"}
-    Labs = {"ok", "bad", "skip", "none", "malformed", "mirror"}
+    Labs = {"ok", "bad", "skip"}
     Ops = {"Mount", "Check", "Unmount"}
-    MaxCalls = 2
+    MaxCalls = 3
     MaxConc = 1
     MaxObj = 2
     SameMp = FALSE
-    OneMount = TRUE
+    OneMount = FALSE
     AllowNoVerif = TRUE
     DisableVerif = FALSE
-    NoPrefetch = TRUE
+    NoPrefetch = FALSE
     NoBgFetch = TRUE
     PreRes = FALSE
     Expiry = FALSE
@@ -23,7 +23,8 @@ CONSTANTS
     CheckOwnKey = TRUE
     DoneAlways = TRUE
     BgRespectsPrio = TRUE
-INIT GenInit
-NEXT GenNext
+SPECIFICATION Spec
 VIEW core
+INVARIANTS TypeOK MountedIffInMap MountedLayerAlive NoUnverifiedMountUnlessAllowed NoUnverifiedInMap DoDoneBalanced
+PROPERTIES FailedMountLeavesNothing UnmountReleasesLayer CheckReachesOwnLayer BackgroundFetchOnlyAfterMountReturns
 CHECK_DEADLOCK FALSE
